@@ -394,6 +394,9 @@ pub fn run_case(rep: &mut Report, t: &Topo, verbose: bool) {
                 Fault::SilenceNode(n) => sim.silence(*n),
                 Fault::Quality(n, c) => {
                     classes[*n] = *c;
+                    if *c < 128 {
+                        rep.ev("fault_quality_change_into_class_below_128");
+                    }
                     let mut q = sim.nodes[*n].node.inst().default_ds().clock_quality;
                     q.clock_class = *c;
                     let _ = sim.nodes[*n].node.set_clock_quality(q);
@@ -602,7 +605,11 @@ pub fn gen_topo(rng: &mut StdRng) -> Topo {
             if nodes[n].slave_only || nodes[n].class < 128 {
                 Fault::None
             } else {
-                Fault::Quality(n, [128u8, 187, 248, 135][rng.gen_range(0..4)])
+                // a single-port clock may also be promoted into the better-than-slave classes at
+                // run time: it becomes grandmaster if that makes it the best clock, otherwise it
+                // must leave the slave state (decision P1) and stay passive
+                let low = nodes[n].n_ports == 1 && rng.gen_bool(0.4);
+                Fault::Quality(n, if low { [6u8, 7, 127][rng.gen_range(0..3)] } else { [128u8, 187, 248, 135][rng.gen_range(0..4)] })
             }
         }
     };
